@@ -30,9 +30,110 @@ import (
 
 var fset = token.NewFileSet()
 
+// die aborts the current section (see `section`): a component that cannot be extracted any more (the source
+// was restructured) is emitted as its empty fallback, it never makes the extractor fail
+type extractErr string
+
 func die(f string, a ...any) {
-	fmt.Fprintf(os.Stderr, "c16tables: "+f+"\n", a...)
-	os.Exit(1)
+	panic(extractErr(fmt.Sprintf(f, a...)))
+}
+
+// section runs fn and appends its output; if fn gives up, the fallback definitions are emitted instead
+func section(out *strings.Builder, name string, fallback string, fn func(w func(string, ...any))) {
+	var b strings.Builder
+	ok := func() (ok bool) {
+		defer func() {
+			if r := recover(); r != nil {
+				if e, isE := r.(extractErr); isE {
+					fmt.Fprintf(os.Stderr, "c16tables: %s: not extractable: %s\n", name, string(e))
+					ok = false
+					return
+				}
+				panic(r)
+			}
+		}()
+		fn(func(f string, a ...any) { fmt.Fprintf(&b, f, a...) })
+		return true
+	}()
+	if ok {
+		out.WriteString(b.String())
+	} else {
+		fmt.Fprintf(out, "-- %s: not extractable from the current source\n%s\n", name, fallback)
+	}
+}
+
+// ---- normalised description of a decode function: the sequence of decoder calls with their literal
+// arguments; error message texts are dropped (`Fatalf()`), conversions int(x)/int64(x) are transparent
+
+func normExpr(e ast.Expr) string {
+	switch e := e.(type) {
+	case *ast.BasicLit:
+		if e.Kind == token.STRING {
+			if s, err := strconv.Unquote(e.Value); err == nil {
+				return s
+			}
+			return e.Value
+		}
+		if v, err := strconv.ParseUint(e.Value, 0, 64); err == nil {
+			return strconv.FormatUint(v, 10)
+		}
+		return e.Value
+	case *ast.Ident:
+		return e.Name
+	case *ast.ParenExpr:
+		return normExpr(e.X)
+	case *ast.UnaryExpr:
+		return e.Op.String() + normExpr(e.X)
+	case *ast.BinaryExpr:
+		return normExpr(e.X) + e.Op.String() + normExpr(e.Y)
+	case *ast.SelectorExpr:
+		return e.Sel.Name
+	case *ast.CallExpr:
+		name := normExpr(e.Fun)
+		if (name == "int" || name == "int64" || name == "uint64" || name == "byte") && len(e.Args) == 1 {
+			return normExpr(e.Args[0])
+		}
+		if name == "Fatalf" || name == "Errorf" {
+			return "Fatalf()"
+		}
+		as := make([]string, len(e.Args))
+		for i, a := range e.Args {
+			as[i] = normExpr(a)
+		}
+		return name + "(" + strings.Join(as, ",") + ")"
+	}
+	return "?" + strings.Join(strings.Fields(src(e)), "")
+}
+
+func descOf(e ast.Expr) []string {
+	fl, ok := e.(*ast.FuncLit)
+	if !ok {
+		return []string{normExpr(e)}
+	}
+	var out []string
+	for _, st := range fl.Body.List {
+		switch st := st.(type) {
+		case *ast.ExprStmt:
+			out = append(out, normExpr(st.X))
+		case *ast.AssignStmt:
+			if len(st.Lhs) == 1 && len(st.Rhs) == 1 {
+				out = append(out, normExpr(st.Lhs[0])+"="+normExpr(st.Rhs[0]))
+			} else {
+				out = append(out, "?"+strings.Join(strings.Fields(src(st)), ""))
+			}
+		default:
+			out = append(out, "?"+strings.Join(strings.Fields(src(st)), ""))
+		}
+	}
+	return out
+}
+
+func leanList(ss []string) string {
+	qs := make([]string, len(ss))
+	for i, s := range ss {
+		qs[i] = leanStr(s)
+	}
+	return "[" + strings.Join(qs, ", ") + "]"
 }
 
 func src(n ast.Node) string {
@@ -152,160 +253,287 @@ func findLit(fn *ast.FuncDecl, typeName string) (lit *ast.CompositeLit, stmtIdx 
 	return nil, -1
 }
 
+// integer constants of a file, by identifier
+func constTable(f *ast.File) ([]string, map[string]uint64) {
+	var names []string
+	vals := map[string]uint64{}
+	for _, d := range f.Decls {
+		gd, ok := d.(*ast.GenDecl)
+		if !ok || gd.Tok != token.CONST {
+			continue
+		}
+		for _, sp := range gd.Specs {
+			vs := sp.(*ast.ValueSpec)
+			for i, n := range vs.Names {
+				if i >= len(vs.Values) {
+					continue
+				}
+				bl, ok := vs.Values[i].(*ast.BasicLit)
+				if !ok {
+					continue
+				}
+				v, err := strconv.ParseUint(bl.Value, 0, 64)
+				if err != nil {
+					continue
+				}
+				names = append(names, n.Name)
+				vals[n.Name] = v
+			}
+		}
+	}
+	return names, vals
+}
+
+func constVal(e ast.Expr, vals map[string]uint64) (uint64, bool) {
+	switch e := e.(type) {
+	case *ast.BasicLit:
+		v, err := strconv.ParseUint(e.Value, 0, 64)
+		return v, err == nil
+	case *ast.Ident:
+		v, ok := vals[e.Name]
+		return v, ok
+	}
+	return 0, false
+}
+
+// a package-level `var name = T{ key: "sym", … }` map literal: (sym, key value)
+func symMap(f *ast.File, name string, vals map[string]uint64) [][2]string {
+	var out [][2]string
+	for _, d := range f.Decls {
+		gd, ok := d.(*ast.GenDecl)
+		if !ok || gd.Tok != token.VAR {
+			continue
+		}
+		for _, sp := range gd.Specs {
+			vs := sp.(*ast.ValueSpec)
+			if len(vs.Names) != 1 || vs.Names[0].Name != name || len(vs.Values) != 1 {
+				continue
+			}
+			cl, ok := vs.Values[0].(*ast.CompositeLit)
+			if !ok {
+				die("%s is not a composite literal", name)
+			}
+			for _, el := range cl.Elts {
+				kv, ok := el.(*ast.KeyValueExpr)
+				if !ok {
+					die("%s: element without key", name)
+				}
+				v, ok := constVal(kv.Key, vals)
+				if !ok {
+					die("%s: key %s is not a constant", name, src(kv.Key))
+				}
+				bl, ok := kv.Value.(*ast.BasicLit)
+				if !ok {
+					die("%s: value %s is not a string literal", name, src(kv.Value))
+				}
+				sym, _ := strconv.Unquote(bl.Value)
+				out = append(out, [2]string{sym, strconv.FormatUint(v, 10)})
+			}
+			return out
+		}
+	}
+	die("var %s not found", name)
+	return nil
+}
+
 func main() {
 	if len(os.Args) < 2 {
-		die("usage: c16tables /repo")
+		fmt.Fprintln(os.Stderr, "usage: c16tables /repo")
+		os.Exit(1)
 	}
 	repo := os.Args[1]
 	var out strings.Builder
-	w := func(f string, a ...any) { fmt.Fprintf(&out, f, a...) }
-	w("/- generated by /verif/extract/c16tables from format/msgpack/msgpack.go, format/cbor/cbor.go,\n   format/bencode/bencode.go and the three jq reducers of %s — do not edit -/\n", "/repo")
-	w("namespace FqModel.Gen.SerialTables\n\n")
+	fmt.Fprintf(&out, "/- generated by /verif/extract/c16tables from format/{msgpack,cbor,bencode,bson,json,asn1} of the repository — do not edit.\n")
+	fmt.Fprintf(&out, "   Semantic facts (msgpack rows with normalised decode functions, constants by role) and the source texts the models were\n")
+	fmt.Fprintf(&out, "   transliterated from (token lists).  A component that can no longer be extracted is emitted empty. -/\n")
+	fmt.Fprintf(&out, "namespace FqModel.Gen.SerialTables\n\n")
+
+	pairs := func(w func(string, ...any), ps [][2]string) {
+		for i, p := range ps {
+			sep := ","
+			if i == len(ps)-1 {
+				sep = ""
+			}
+			w("  (%s, %s)%s\n", leanStr(p[0]), p[1], sep)
+		}
+	}
+	textDef := func(name string, get func() string) {
+		section(&out, name, fmt.Sprintf("def %s : List String := []\n", name), func(w func(string, ...any)) {
+			w("def %s : List String := %s\n\n", name, toks(get()))
+		})
+	}
 
 	// ---- msgpack
-	mp := parse(filepath.Join(repo, "format/msgpack/msgpack.go"))
-	fn := funcDecl(mp, "decodeMsgPackValue")
-	lit, idx := findLit(fn, "formatEntries")
-	w("/-- rows of the `formatEntries` literal: (lo, hi, symbol, decode function) -/\ndef msgpackRows : List (Nat × Nat × String × List String) := [\n")
-	for i, el := range lit.Elts {
-		row, ok := el.(*ast.CompositeLit)
-		if !ok {
-			die("row %d is not a composite literal", i)
+	var mp *ast.File
+	mpFile := func() *ast.File {
+		if mp == nil {
+			mp = parse(filepath.Join(repo, "format/msgpack/msgpack.go"))
 		}
-		r, ok := field(row, "r").(*ast.CompositeLit)
-		if !ok || len(r.Elts) != 2 {
-			die("row %d: r is not a 2-element literal", i)
-		}
-		sep := ","
-		if i == len(lit.Elts)-1 {
-			sep = ""
-		}
-		w("  (%d, %d, %s, %s)%s\n", intLit(r.Elts[0]), intLit(r.Elts[1]), leanStr(symOf(field(row, "s"))), toks(src(field(row, "d"))), sep)
+		return mp
 	}
-	w("]\n\n")
-	w("/-- the closures defined before the table -/\ndef msgpackHelpers : List (String × List String) := [\n")
-	first := true
-	for _, st := range fn.Body.List[:idx] {
-		as, ok := st.(*ast.AssignStmt)
-		if !ok || len(as.Lhs) != 1 || len(as.Rhs) != 1 {
-			die("unexpected statement before the table: %s", src(st))
+	section(&out, "msgpackRows", "def msgpackRows : List (Nat × Nat × String × List String) := []\n", func(w func(string, ...any)) {
+		fn := funcDecl(mpFile(), "decodeMsgPackValue")
+		lit, _ := findLit(fn, "formatEntries")
+		w("/-- rows of the `formatEntries` literal: (lo, hi, symbol, normalised decode function) -/\ndef msgpackRows : List (Nat × Nat × String × List String) := [\n")
+		for i, el := range lit.Elts {
+			row, ok := el.(*ast.CompositeLit)
+			if !ok {
+				die("row %d is not a composite literal", i)
+			}
+			r, ok := field(row, "r").(*ast.CompositeLit)
+			if !ok || len(r.Elts) != 2 {
+				die("row %d: r is not a 2-element literal", i)
+			}
+			sep := ","
+			if i == len(lit.Elts)-1 {
+				sep = ""
+			}
+			w("  (%d, %d, %s, %s)%s\n", intLit(r.Elts[0]), intLit(r.Elts[1]), leanStr(symOf(field(row, "s"))), leanList(descOf(field(row, "d"))), sep)
 		}
-		if !first {
-			w(",\n")
+		w("]\n\n")
+	})
+	section(&out, "msgpackHelpers", "def msgpackHelpers : List (String × List String) := []\n", func(w func(string, ...any)) {
+		fn := funcDecl(mpFile(), "decodeMsgPackValue")
+		_, idx := findLit(fn, "formatEntries")
+		w("/-- the closures defined before the table -/\ndef msgpackHelpers : List (String × List String) := [\n")
+		first := true
+		for _, st := range fn.Body.List[:idx] {
+			as, ok := st.(*ast.AssignStmt)
+			if !ok || len(as.Lhs) != 1 || len(as.Rhs) != 1 {
+				die("unexpected statement before the table: %s", src(st))
+			}
+			if !first {
+				w(",\n")
+			}
+			first = false
+			w("  (%s, %s)", leanStr(src(as.Lhs[0])), toks(src(as.Rhs[0])))
 		}
-		first = false
-		w("  (%s, %s)", leanStr(src(as.Lhs[0])), toks(src(as.Rhs[0])))
-	}
-	w("\n]\n\n")
-	var disp []string
-	for _, st := range fn.Body.List[idx+1:] {
-		disp = append(disp, src(st))
-	}
-	w("/-- the statements after the table -/\ndef msgpackDispatch : List String := %s\n\n", toks(strings.Join(disp, " ; ")))
-	w("def msgpackLookup : List String := %s\n\n", toks(src(funcDecl(mp, "lookup").Body)))
+		w("\n]\n\n")
+	})
+	textDef("msgpackDispatch", func() string {
+		fn := funcDecl(mpFile(), "decodeMsgPackValue")
+		_, idx := findLit(fn, "formatEntries")
+		var disp []string
+		for _, st := range fn.Body.List[idx+1:] {
+			disp = append(disp, src(st))
+		}
+		return strings.Join(disp, " ; ")
+	})
+	textDef("msgpackLookup", func() string { return src(funcDecl(mpFile(), "lookup").Body) })
 
 	// ---- cbor
-	cb := parse(filepath.Join(repo, "format/cbor/cbor.go"))
-	w("/-- integer constants of cbor.go -/\ndef cborConsts : List (String × Nat) := [\n")
-	first = true
-	for _, d := range cb.Decls {
-		gd, ok := d.(*ast.GenDecl)
-		if !ok || gd.Tok != token.CONST {
-			continue
+	var cb *ast.File
+	cbFile := func() *ast.File {
+		if cb == nil {
+			cb = parse(filepath.Join(repo, "format/cbor/cbor.go"))
 		}
-		for _, sp := range gd.Specs {
-			vs := sp.(*ast.ValueSpec)
-			for i, n := range vs.Names {
-				if i >= len(vs.Values) {
-					die("const %s without a value", n.Name)
-				}
-				if !first {
-					w(",\n")
-				}
-				first = false
-				w("  (%s, %d)", leanStr(n.Name), intLit(vs.Values[i]))
+		return cb
+	}
+	section(&out, "cborConsts", "def cborConsts : List (String × Nat) := []\n", func(w func(string, ...any)) {
+		names, vals := constTable(cbFile())
+		w("/-- integer constants of cbor.go, by identifier -/\ndef cborConsts : List (String × Nat) := [\n")
+		var ps [][2]string
+		for _, n := range names {
+			ps = append(ps, [2]string{n, strconv.FormatUint(vals[n], 10)})
+		}
+		pairs(w, ps)
+		w("]\n\n")
+	})
+	section(&out, "cborMajorBySym", "def cborMajorBySym : List (String × Nat) := []\n", func(w func(string, ...any)) {
+		_, vals := constTable(cbFile())
+		fn := funcDecl(cbFile(), "decodeCBORValue")
+		lit, _ := findLit(fn, "majorTypeEntries")
+		var ps [][2]string
+		for i, el := range lit.Elts {
+			kv, ok := el.(*ast.KeyValueExpr)
+			if !ok {
+				die("cbor row %d: not key: value", i)
 			}
-		}
-	}
-	w("\n]\n\n")
-	cfn := funcDecl(cb, "decodeCBORValue")
-	clit, cidx := findLit(cfn, "majorTypeEntries")
-	if cidx != 0 {
-		die("cbor: statements before the major type table")
-	}
-	w("/-- rows of the `majorTypeEntries` literal: (key constant, symbol, decode function) -/\ndef cborMajorTypes : List (String × String × List String) := [\n")
-	for i, el := range clit.Elts {
-		kv, ok := el.(*ast.KeyValueExpr)
-		if !ok {
-			die("cbor row %d: not key: value", i)
-		}
-		row, ok := kv.Value.(*ast.CompositeLit)
-		if !ok {
-			die("cbor row %d: not a composite literal", i)
-		}
-		sep := ","
-		if i == len(clit.Elts)-1 {
-			sep = ""
-		}
-		w("  (%s, %s, %s)%s\n", leanStr(src(kv.Key)), leanStr(symOf(field(row, "s"))), toks(src(field(row, "d"))), sep)
-	}
-	w("]\n\n")
-	disp = nil
-	for _, st := range cfn.Body.List[cidx+1:] {
-		disp = append(disp, src(st))
-	}
-	w("/-- the statements after the table (short count / count / dispatch) -/\ndef cborDispatch : List String := %s\n\n", toks(strings.Join(disp, " ; ")))
-
-	// ---- bencode
-	bc := parse(filepath.Join(repo, "format/bencode/bencode.go"))
-	w("def bencodeStrIntUntil : List String := %s\n\n", toks(src(funcDecl(bc, "decodeStrIntUntil").Body)))
-	w("def bencodeValue : List String := %s\n\n", toks(src(funcDecl(bc, "decodeBencodeValue").Body)))
-
-	// ---- bson
-	bsn := parse(filepath.Join(repo, "format/bson/bson.go"))
-	w("def bsonDocument : List String := %s\n\n", toks(src(funcDecl(bsn, "decodeBSONDocument").Body)))
-	w("def bsonDecode : List String := %s\n\n", toks(src(funcDecl(bsn, "decodeBSON").Body)))
-	w("/-- element type constants of bson.go -/\ndef bsonConsts : List (String × Nat) := [\n")
-	first = true
-	for _, d := range bsn.Decls {
-		gd, ok := d.(*ast.GenDecl)
-		if !ok || gd.Tok != token.CONST {
-			continue
-		}
-		for _, sp := range gd.Specs {
-			vs := sp.(*ast.ValueSpec)
-			for i, n := range vs.Names {
-				if i >= len(vs.Values) {
-					die("const %s without a value", n.Name)
-				}
-				if !first {
-					w(",\n")
-				}
-				first = false
-				w("  (%s, %d)", leanStr(n.Name), intLit(vs.Values[i]))
+			row, ok := kv.Value.(*ast.CompositeLit)
+			if !ok {
+				die("cbor row %d: not a composite literal", i)
 			}
+			v, ok := constVal(kv.Key, vals)
+			if !ok {
+				die("cbor row %d: key is not a constant", i)
+			}
+			ps = append(ps, [2]string{symOf(field(row, "s")), strconv.FormatUint(v, 10)})
 		}
+		w("/-- major types by ROLE: (type symbol of the majorTypeEntries row, value of its key) -/\ndef cborMajorBySym : List (String × Nat) := [\n")
+		pairs(w, ps)
+		w("]\n\n")
+	})
+	section(&out, "cborShortCountBySym", "def cborShortCountBySym : List (String × Nat) := []\n", func(w func(string, ...any)) {
+		_, vals := constTable(cbFile())
+		w("/-- short counts by ROLE: (symbol in shortCountMap, value) -/\ndef cborShortCountBySym : List (String × Nat) := [\n")
+		pairs(w, symMap(cbFile(), "shortCountMap", vals))
+		w("]\n\n")
+	})
+	section(&out, "cborMajorTypes", "def cborMajorTypes : List (String × String × List String) := []\n", func(w func(string, ...any)) {
+		fn := funcDecl(cbFile(), "decodeCBORValue")
+		lit, _ := findLit(fn, "majorTypeEntries")
+		w("/-- rows of the `majorTypeEntries` literal: (key constant, symbol, decode function text) -/\ndef cborMajorTypes : List (String × String × List String) := [\n")
+		for i, el := range lit.Elts {
+			kv, ok := el.(*ast.KeyValueExpr)
+			if !ok {
+				die("cbor row %d: not key: value", i)
+			}
+			row, ok := kv.Value.(*ast.CompositeLit)
+			if !ok {
+				die("cbor row %d: not a composite literal", i)
+			}
+			sep := ","
+			if i == len(lit.Elts)-1 {
+				sep = ""
+			}
+			w("  (%s, %s, %s)%s\n", leanStr(src(kv.Key)), leanStr(symOf(field(row, "s"))), toks(src(field(row, "d"))), sep)
+		}
+		w("]\n\n")
+	})
+	textDef("cborDispatch", func() string {
+		fn := funcDecl(cbFile(), "decodeCBORValue")
+		_, idx := findLit(fn, "majorTypeEntries")
+		var disp []string
+		for _, st := range fn.Body.List[idx+1:] {
+			disp = append(disp, src(st))
+		}
+		return strings.Join(disp, " ; ")
+	})
+
+	// ---- bencode, bson, json, asn1_ber: function bodies
+	body := func(file, fn string) func() string {
+		return func() string { return src(funcDecl(parse(filepath.Join(repo, file)), fn).Body) }
 	}
-	w("\n]\n\n")
-
-	// ---- json
-	jsn := parse(filepath.Join(repo, "format/json/json.go"))
-	w("def jsonDecodeEx : List String := %s\n\n", toks(src(funcDecl(jsn, "decodeJSONEx").Body)))
-
-	// ---- asn1_ber
-	brf := parse(filepath.Join(repo, "format/asn1/asn1_ber.go"))
-	w("def berDecodeLength : List String := %s\n\n", toks(src(funcDecl(brf, "decodeLength").Body)))
-	w("def berDecodeTagNumber : List String := %s\n\n", toks(src(funcDecl(brf, "decodeTagNumber").Body)))
-	w("def berValue : List String := %s\n\n", toks(src(funcDecl(brf, "decodeASN1BERValue").Body)))
+	textDef("bencodeStrIntUntil", body("format/bencode/bencode.go", "decodeStrIntUntil"))
+	textDef("bencodeValue", body("format/bencode/bencode.go", "decodeBencodeValue"))
+	textDef("bsonDocument", body("format/bson/bson.go", "decodeBSONDocument"))
+	textDef("bsonDecode", body("format/bson/bson.go", "decodeBSON"))
+	section(&out, "bsonConsts", "def bsonConsts : List (String × Nat) := []\n", func(w func(string, ...any)) {
+		names, vals := constTable(parse(filepath.Join(repo, "format/bson/bson.go")))
+		w("/-- element type constants of bson.go -/\ndef bsonConsts : List (String × Nat) := [\n")
+		var ps [][2]string
+		for _, n := range names {
+			ps = append(ps, [2]string{n, strconv.FormatUint(vals[n], 10)})
+		}
+		pairs(w, ps)
+		w("]\n\n")
+	})
+	textDef("jsonDecodeEx", body("format/json/json.go", "decodeJSONEx"))
+	textDef("berDecodeLength", body("format/asn1/asn1_ber.go", "decodeLength"))
+	textDef("berDecodeTagNumber", body("format/asn1/asn1_ber.go", "decodeTagNumber"))
+	textDef("berValue", body("format/asn1/asn1_ber.go", "decodeASN1BERValue"))
 
 	// ---- jq reducers, verbatim
 	for _, j := range [][2]string{{"msgpackJq", "format/msgpack/msgpack.jq"}, {"cborJq", "format/cbor/cbor.jq"}, {"bencodeJq", "format/bencode/bencode.jq"}, {"bsonJq", "format/bson/bson.jq"}, {"berJq", "format/asn1/asn1_ber.jq"}} {
-		b, err := os.ReadFile(filepath.Join(repo, j[1]))
-		if err != nil {
-			die("%v", err)
-		}
-		w("def %s : List String := %s\n\n", j[0], toks(string(b)))
+		j := j
+		textDef(j[0], func() string {
+			b, err := os.ReadFile(filepath.Join(repo, j[1]))
+			if err != nil {
+				die("%v", err)
+			}
+			return string(b)
+		})
 	}
-	w("end FqModel.Gen.SerialTables\n")
+	fmt.Fprintf(&out, "end FqModel.Gen.SerialTables\n")
 	fmt.Print(out.String())
 }
